@@ -70,15 +70,14 @@ def obligations(tier: str, seed: int):
     ct1 = 240 if quick else 1200
     for i, sql in enumerate(SINGLE):
         if quick and i % 2 != seed % 2 and i >= 4:
-            continue
+            continue  # plain scalar filters/projections: half of them per seed
         add(sql, 2, 0, [], ct1)
     for i, (sql, small) in enumerate(SINGLE_SMALL):
         if quick and i % 2 != seed % 2:
             continue
         add(sql, 2, 0, small, ct1)
     for i, sql in enumerate(JOINS):
-        if quick and i % 2 != seed % 2:
-            continue
+        # joins / set operations / sub-queries are where NULL and empty-input rules live: always all of them
         add(sql, 1, 1, JOIN_SMALL, ct1)
     if not quick:
         for sql in JOINS:
